@@ -297,6 +297,10 @@ theorem inv_step (w : W) (op : Op) (h : Inv w) : Inv (step w op).1 := by
     simp only [step]; split
     · exact h
     · exact ⟨fun e => h.live e, fun e => h.done e⟩
+  | deactivateListener =>
+    simp only [step]; split
+    · exact h
+    · exact ⟨fun e => h.live e, fun e => h.done e⟩
 
 theorem inv_run (w : W) (ops : List Op) (h : Inv w) : Inv (run w ops) := by
   induction ops generalizing w with
@@ -322,7 +326,7 @@ structure Acc (w : W) : Prop where
   slab : w.slab = w.base + w.sessions
   lis : w.listeners ≤ w.base
 
-theorem acc_step (w : W) (op : Op) (h : Acc w) : Acc (step w op).1 := by
+theorem acc_step (w : W) (op : Op) (h : Acc w) (hop : op ≠ .deactivateListener) : Acc (step w op).1 := by
   obtain ⟨h1, h2⟩ := h
   cases op with
   | softStop id => simp only [step]; split <;> exact ⟨h1, h2⟩
@@ -343,17 +347,34 @@ theorem acc_step (w : W) (op : Op) (h : Acc w) : Acc (step w op).1 := by
       have : w.listeners ≠ 0 := by intro e; exact hc (Or.inr e)
       exact ⟨by simp only []; omega, by simp only []; omega⟩
   | returnListeners => simp only [step]; split <;> exact ⟨h1, h2⟩
+  | deactivateListener => exact absurd rfl hop
 
-/-- **The accounting survives every history**, hand-over included: from a fresh
-    worker, after any sequence of operations (listeners added, removed, handed
-    back with `ReturnListenSockets`, connections, ticks, stops) the slab still is
-    the base plus the client sessions. -/
-theorem c10_accounting_invariant (b : Nat) (ops : List Op) : Acc (run (W.fresh b) ops) := by
+/-- **The accounting survives every history without `DeactivateListener`**,
+    hand-over included: from a fresh worker, after any sequence of the other
+    operations (listeners added, removed, handed back with `ReturnListenSockets`,
+    connections, ticks, stops) the slab still is the base plus the client
+    sessions. `DeactivateListener` breaks it: see the counterexample. -/
+theorem c10_accounting_invariant_partial (b : Nat) (ops : List Op)
+    (hd : ∀ o ∈ ops, o ≠ Op.deactivateListener) : Acc (run (W.fresh b) ops) := by
   have : ∀ (w : W), Acc w → Acc (run w ops) := by
     induction ops with
     | nil => intro w h; exact h
-    | cons o os ih => intro w h; exact ih _ (acc_step w o h)
+    | cons o os ih =>
+      intro w h
+      exact ih (fun x hx => hd x (by simp [hx])) _ (acc_step w o h (hd o (by simp)))
   exact this _ ⟨by simp [W.fresh], by simp [W.fresh]⟩
+
+/-- two listeners deactivated, one request in flight (its frontend and backend
+    entries): the SoftStop is acknowledged at once, with both entries still there -/
+theorem c10_accounting_counterexample_deactivate :
+    let w := run (W.fresh 1) [.addListener, .addListener, .connect, .connect,
+                               .deactivateListener, .deactivateListener, .softStop 9]
+    w.sessions = 2 ∧ ¬ Acc w ∧ (step w (.tick 0)).2 = .ack 9 := by
+  refine ⟨by decide, ?_, by decide⟩
+  intro h
+  have := h.slab
+  revert this
+  decide
 
 /-- what a tick does in a state that satisfies the accounting -/
 theorem tick_ack_iff (w : W) (closed : Nat) (h : Acc w) :
@@ -384,11 +405,12 @@ theorem tick_ack_iff (w : W) (closed : Nat) (h : Acc w) :
     tick acknowledges the stop exactly when the worker is stopping and every
     client session has ended on that tick; in particular never while a session
     is left, and always once none is. -/
-theorem c10_handover_then_stop_waits_for_sessions (b : Nat) (ops : List Op) (closed : Nat) :
+theorem c10_handover_then_stop_waits_for_sessions_partial (b : Nat) (ops : List Op) (closed : Nat)
+    (hd : ∀ o ∈ ops, o ≠ Op.deactivateListener) :
     let w := run (W.fresh b) ops
     (∃ id, (step w (.tick closed)).2 = .ack id) ↔
       (w.exited = false ∧ w.shutting.isSome = true ∧ w.sessions ≤ closed) :=
-  tick_ack_iff _ closed (c10_accounting_invariant b ops)
+  tick_ack_iff _ closed (c10_accounting_invariant_partial b ops hd)
 
 /-- the acknowledgement carries the id of the SoftStop being served, is written
     on the first tick at which the slab is back to its base, and ends the worker -/
@@ -416,6 +438,7 @@ theorem stopping_step (w : W) (op : Op) (h : w.exited = true ∨ w.shutting.isSo
   | addListener => simp only [step]; split <;> simp_all
   | removeListener => simp only [step]; split <;> simp_all
   | returnListeners => simp only [step]; split <;> simp_all
+  | deactivateListener => simp only [step]; split <;> simp_all
 
 theorem step_not_accepted (v : W) (o : Op) (h : v.exited = true ∨ v.shutting.isSome = true ∨ v.listening = false) :
     (step v o).2 ≠ .accepted := by
@@ -434,6 +457,7 @@ theorem step_not_accepted (v : W) (o : Op) (h : v.exited = true ∨ v.shutting.i
   | addListener => simp only [step]; split <;> simp
   | removeListener => simp only [step]; split <;> simp
   | returnListeners => simp only [step]; split <;> simp
+  | deactivateListener => simp only [step]; split <;> simp
 
 /-- **No new connection after the stop.** After a SoftStop request has been
     read, no later connection attempt is accepted — before the acknowledgement
@@ -465,6 +489,7 @@ theorem returned_step (w : W) (op : Op) (h : w.listening = false) : (step w op).
   | addListener => simp only [step]; split <;> simp_all
   | removeListener => simp only [step]; split <;> simp_all
   | returnListeners => simp only [step]; split <;> simp_all
+  | deactivateListener => simp only [step]; split <;> simp_all
 
 /-- **No new connection after the hand-over.** Once the listen sockets were
     returned, the old worker accepts nothing any more (the successor does). -/
